@@ -66,11 +66,12 @@ def tick_groups(err):
 def judge(c, tail, runs):
     want = [''.join(t) for t in c['out']] + (['after'] if tail == 'after' else [])
     wexit = c['exit'] if tail == 'none' else 0
+    exit_judged = tail != 'none' or c.get('exit_judged', True)
     for r in runs:
         if r.get('panic'):
             return 'internal panic: ' + r['panic']
         got = r['out'].decode('utf-8', 'replace').split('\n')[:-1]
-        if got != want or r['exit'] != wexit:
+        if got != want or (exit_judged and r['exit'] != wexit):
             return 'printed %s exit %d; structured meaning: %s exit %d' % (got, r['exit'], want, wexit)
         if c['family'] == 'stage':
             groups = tick_groups(r['err'])
@@ -87,8 +88,8 @@ def run(ck, replay=None):
     ck.cov['rule'] = ('TLC evaluates the structured meaning (completion records normal/break name/continue name/return n) of every program of three '
                       'families in Control.tla.  call: a function called from a loop of the main function ends itself with return / break <its name> / break if at a chosen item - the caller\'s loop and the caller carry on.  nest: a function whose body has an outer loop (foreach, while or for) over 3 items, optionally an '
                       'inner loop (any of the three kinds) over 2 items, and in each loop body optionally `if {var == k} then { out; CTRL; out }` with '
-                      'CTRL in {break <loop name>, continue <loop name>, return 3, break if, break <function>} where the loop name is that of any '
-                      'enclosing loop (so with loops of different kinds the outer one can be named from the inner one).  stage: the consumer '
+                      'CTRL in {break <loop name>, continue <loop name>, return 3, return 0, break if, break <function>} where the loop name is that of any '
+                      'enclosing loop (so with loops of different kinds the outer one can be named from the inner one); the outer loop is followed by another statement or is the function\'s last one (then the function\'s exit number is the loop\'s: judged after return n and after a normal end, not after break).  stage: the consumer '
                       'foreach of a pipeline `producer -> foreach` (optionally inside a while loop) ends its own loop / the while loop / the '
                       'function while the producer stage (one item per second, reported on stderr) is still running; the meaning gives the range '
                       'of items the producer may have started: all of them unless a block around the pipeline was ended, then at least the item '
@@ -115,7 +116,7 @@ def run(ck, replay=None):
             src = ''.join(d + '\n' for d in defs) + 'function fn%d {\n%s\n}\nfn%d' % (cid, main, cid)
             if tail == 'after':
                 src += '\nout after'
-            jobs['nest' if c['family'] == 'call' else c['family']].append({'id': cid, 'src': src, 'timeout_ms': 60000, 'repeat': 2 if c['family'] == 'nest' else 1})
+            jobs['nest' if c['family'] == 'call' else c['family']].append({'id': cid, 'src': src, 'timeout_ms': 60000, 'repeat': 1})
             meta[cid] = (c, tail, src)
     res = prog.run_programs(ck, jobs['nest'], shards=8, tag='c39')
     res.update(prog.run_programs(ck, jobs['stage'], shards=min(len(jobs['stage']), 2 * common.NCPU), tag='c39s'))
@@ -129,7 +130,7 @@ def run(ck, replay=None):
             key = 'call k1=%s c1=%s@%d c2=%s@%d tail=%s' % (p['k1'], p['c1'], p['w1'], p['c2'], p['w2'], tail)
             triv = False
         elif c['family'] == 'nest':
-            key = 'k1=%s c1=%s@%d inner=%s c2=%s@%d tail=%s' % (p['k1'], p['c1'], p['w1'], p['inner'], p['c2'], p['w2'], tail)
+            key = 'k1=%s c1=%s@%d inner=%s c2=%s@%d last=%s tail=%s' % (p['k1'], p['c1'], p['w1'], p['inner'], p['c2'], p['w2'], p['last'], tail)
             triv = p['c1'] == 'none' and p['c2'] == 'none'
         else:
             key = 'stage wrap=%s c=%s@%d tail=%s' % (p['wrap'], p['c'], p['w'], tail)
